@@ -37,12 +37,12 @@ Proof.
 Qed.
 
 (* ---- sums over the record store ---- *)
-Lemma pend_sset_fresh (key : urec -> string) k u rk r : sget u rk = None ->
-  ssumk (fun _ x => if_eq (key x) k (ur_amt x)) (sset u rk r) = ssumk (fun _ x => if_eq (key x) k (ur_amt x)) u + if_eq (key r) k (ur_amt r).
+Lemma pend_sset_fresh (key : urec -> string) (f : urec -> Z) k u rk r : sget u rk = None ->
+  ssumk (fun _ x => if_eq (key x) k (f x)) (sset u rk r) = ssumk (fun _ x => if_eq (key x) k (f x)) u + if_eq (key r) k (f r).
 Proof. intro F. rewrite ssumk_sset. unfold old_of. rewrite F. lia. Qed.
 
-Lemma pend_sdel_stored (key : urec -> string) k u rk r : sget u rk = Some r ->
-  ssumk (fun _ x => if_eq (key x) k (ur_amt x)) (sdel u rk) = ssumk (fun _ x => if_eq (key x) k (ur_amt x)) u - if_eq (key r) k (ur_amt r).
+Lemma pend_sdel_stored (key : urec -> string) (f : urec -> Z) k u rk r : sget u rk = Some r ->
+  ssumk (fun _ x => if_eq (key x) k (f x)) (sdel u rk) = ssumk (fun _ x => if_eq (key x) k (f x)) u - if_eq (key r) k (f r).
 Proof. intro F. rewrite ssumk_sdel. unfold old_of. rewrite F. lia. Qed.
 
 Lemma ssumk_map_vals {V} (g : string -> V -> Z) (f : string -> V -> V) (s : store V) :
@@ -66,23 +66,23 @@ Qed.
 Definition pend3 (k : string) (u : store urec) := (pend_sa k u, pend_oa k u, pend_dg k u).
 
 Lemma set_record_pend s r s' k : sget (ur s) (rkey r) = None -> set_record s r = Some s' ->
-  pend_sa k (ur s') = pend_sa k (ur s) + if_eq (ksa r) k (ur_amt r) /\
+  pend_sa k (ur s') = pend_sa k (ur s) + if_eq (ksa r) k (amt_sa r) /\
   pend_oa k (ur s') = pend_oa k (ur s) + if_eq (koa r) k (ur_amt r) /\
   pend_dg k (ur s') = pend_dg k (ur s) + if_eq (kdg r) k (ur_amt r) /\
   sa s' = sa s /\ oa s' = oa s /\ dg s' = dg s /\ hold s' = hold s.
 Proof.
   intros F H. unfold set_record in H. destruct (ur_cn r <? height s); [discriminate|]. rewrite F in H.
   inversion H; subst; clear H. simpl. unfold pend_sa, pend_oa, pend_dg.
-  rewrite !(pend_sset_fresh _ k (ur s) (rkey r) r F). auto 10.
+  rewrite !(pend_sset_fresh _ _ k (ur s) (rkey r) r F). auto 10.
 Qed.
 
 Lemma del_record_pend s r k : sget (ur s) (rkey r) = Some r ->
-  pend_sa k (ur (del_record s r)) = pend_sa k (ur s) - if_eq (ksa r) k (ur_amt r) /\
+  pend_sa k (ur (del_record s r)) = pend_sa k (ur s) - if_eq (ksa r) k (amt_sa r) /\
   pend_oa k (ur (del_record s r)) = pend_oa k (ur s) - if_eq (koa r) k (ur_amt r) /\
   pend_dg k (ur (del_record s r)) = pend_dg k (ur s) - if_eq (kdg r) k (ur_amt r).
 Proof.
   intros F. unfold del_record. simpl. unfold pend_sa, pend_oa, pend_dg.
-  rewrite !(pend_sdel_stored _ k (ur s) (rkey r) r F). auto.
+  rewrite !(pend_sdel_stored _ _ k (ur s) (rkey r) r F). auto.
 Qed.
 
 (* ---- sortedness of the row stores is preserved ---- *)
@@ -183,6 +183,50 @@ Lemma RS_ext s1 s2 k : sa s1 = sa s2 -> RS s1 k = RS s2 k. Proof. unfold RS. int
 Lemma RO_ext s1 s2 k : oa s1 = oa s2 -> RO s1 k = RO s2 k. Proof. unfold RO. intros ->. reflexivity. Qed.
 Lemma RD_ext s1 s2 k : dg s1 = dg s2 -> RD s1 k = RD s2 k. Proof. unfold RD. intros ->. reflexivity. Qed.
 
+(* the three native / non-native points: sortedness and the pending reading of the staker rows *)
+Lemma same_srt s s' : same_but_sa_bank_log s s' -> sa s' = sa s -> srt s -> srt s'.
+Proof. intros (_ & _ & _ & _ & _ & O & D & _) A. apply srt_ext; congruence. Qed.
+
+Lemma srt_of_eq s s' : sa s' = sa s -> oa s' = oa s -> dg s' = dg s -> srt s -> srt s'.
+Proof. unfold srt. intros -> -> ->. auto. Qed.
+
+Lemma bank_send_reads s f t x s0 : bank_send s f t x = Some s0 ->
+  sa s0 = sa s /\ oa s0 = oa s /\ dg s0 = dg s /\ ur s0 = ur s /\ hold s0 = hold s /\ height s0 = height s.
+Proof. intro H. apply bank_send_spec in H. destruct H as (b & B & _ & _ & -> & _). simpl. auto 10. Qed.
+
+Lemma pay_reads s r s' : srt s -> pay_staker s r = Some s' ->
+  srt s' /\ (forall k, RS s' k = RS s k + if_eq (ksa r) k (- amt_sa r)) /\
+  oa s' = oa s /\ dg s' = dg s /\ ur s' = ur s /\ hold s' = hold s /\ height s' = height s.
+Proof.
+  intros S H. apply pay_spec in H. destruct H as [(N & s0 & B & ->)|(N & E)].
+  - apply bank_send_reads in B. destruct B as (a & b & c & d & e & f). unfold log_ev. simpl.
+    split; [apply (srt_of_eq s); assumption|]. split; [|auto 10].
+    intro k. unfold RS. simpl. rewrite a. unfold amt_sa. rewrite N. unfold if_eq. destruct (String.eqb _ k); lia.
+  - pose proof (upd_sa_srt _ _ _ _ _ _ S E) as S'. destruct (upd_sa_reads _ _ _ _ _ _ S E) as (R & a & b & c & d & e).
+    split; [exact S'|]. split; [|auto 10]. intro k. rewrite (R k). unfold amt_sa, ksa. rewrite N. reflexivity.
+Qed.
+
+Lemma book_reads s st a tok s' : srt s -> book_pending s st a tok = Some s' ->
+  srt s' /\ (forall k, RS s' k = RS s k + if_eq (sa_key st a) k (if is_native a then 0 else tok)) /\
+  oa s' = oa s /\ dg s' = dg s /\ ur s' = ur s /\ hold s' = hold s /\ height s' = height s.
+Proof.
+  intros S H. apply book_spec in H. destruct H as [(N & ->)|(N & E)].
+  - split; [exact S|]. split; [|auto 10]. intro k. rewrite N. unfold if_eq. destruct (String.eqb _ k); lia.
+  - pose proof (upd_sa_srt _ _ _ _ _ _ S E) as S'. destruct (upd_sa_reads _ _ _ _ _ _ S E) as (R & a1 & b & c & d & e).
+    split; [exact S'|]. split; [|auto 10]. intro k. rewrite (R k), N. reflexivity.
+Qed.
+
+Lemma take_J0 s st a x s' : srt s /\ agg_inv s -> take_from_staker s st a x = Some s' -> srt s' /\ agg_inv s'.
+Proof.
+  intros [S A] H. apply take_spec in H. destruct H as [(N & s0 & B & ->)|(N & E)].
+  - apply bank_send_reads in B. destruct B as (a1 & b & c & d & e & f). unfold log_ev.
+    split; [apply (srt_of_eq s); simpl; assumption|].
+    intro k. simpl. rewrite a1, b, c, d. apply A.
+  - split; [eapply upd_sa_srt; eauto|]. unfold agg_inv, RS in *.
+    destruct (upd_sa_reads _ _ _ _ _ _ S E) as (R & a1 & b & c & _). intro k. destruct (A k) as (A1 & A2 & A3).
+    specialize (R k). unfold RS in R. rewrite R, a1, b, c, A1, A2, A3. unfold if_eq. destruct (String.eqb _ k); repeat split; lia.
+Qed.
+
 Definition J (s : st) : Prop := srt s /\ agg_inv s.
 
 Lemma agg_inv_R s : agg_inv s <-> forall k, RS s k = pend_sa k (ur s) /\ RO s k = pend_oa k (ur s) /\ RD s k = pend_dg k (ur s).
@@ -209,15 +253,15 @@ Proof.
         rewrite P1, P2, P3, Q1, Q2, Q3. unfold RS, RO, RD. rewrite E1, E2, E3.
         unfold del_record; simpl. fold (RS s k) (RO s k) (RD s k). rewrite A1, A2, A3.
         change (ksa r') with (ksa r). change (koa r') with (koa r). change (kdg r') with (kdg r).
-        change (ur_amt r') with (ur_amt r). repeat split; lia.
+        change (ur_amt r') with (ur_amt r). change (amt_sa r') with (amt_sa r). repeat split; lia.
     + destruct (set_record_pend _ _ _ EmptyString Fr E) as (_ & _ & _ & _ & _ & _ & Hh). rewrite Hh. reflexivity.
   - destruct (upd_dg s _ 0 (- ur_amt r)) as [[s1 z]|] eqn:E1; [|split; [split; [assumption|apply agg_inv_R; assumption]|reflexivity]].
-    destruct (upd_sa s1 _ 0 (ur_act r) (- ur_amt r)) as [s2|] eqn:E2; [|split; [split; [assumption|apply agg_inv_R; assumption]|reflexivity]].
+    destruct (pay_staker s1 r) as [s2|] eqn:E2; [|split; [split; [assumption|apply agg_inv_R; assumption]|reflexivity]].
     destruct (upd_oa s2 _ 0 (- ur_amt r) 0 0) as [s3|] eqn:E3; [|split; [split; [assumption|apply agg_inv_R; assumption]|reflexivity]].
-    pose proof (upd_dg_srt _ _ _ _ _ _ S E1) as S1. pose proof (upd_sa_srt _ _ _ _ _ _ S1 E2) as S2.
+    pose proof (upd_dg_srt _ _ _ _ _ _ S E1) as S1.
+    destruct (pay_reads _ _ _ S1 E2) as (S2 & R2 & a2 & b2 & c2 & h2 & _).
     pose proof (upd_oa_srt _ _ _ _ _ _ _ S2 E3) as S3.
     destruct (upd_dg_reads _ _ _ _ _ _ S E1) as (R1 & a1 & b1 & c1 & h1 & _).
-    destruct (upd_sa_reads _ _ _ _ _ _ S1 E2) as (R2 & a2 & b2 & c2 & h2 & _).
     destruct (upd_oa_reads _ _ _ _ _ _ _ S2 E3) as (R3 & a3 & b3 & c3 & h3 & _).
     split; [|unfold del_record; simpl; congruence].
     split; [eapply (srt_ext s3); try reflexivity; exact S3|].
@@ -257,28 +301,34 @@ Qed.
 Lemma log_ev_J e s : J s -> J (log_ev e s).
 Proof. apply J_ext; reflexivity. Qed.
 
+Lemma deposit_J_lst s st a x s' : J s -> deposit_lst s st a x = Some s' -> J s'.
+Proof.
+  intros Hj H. unfold deposit_lst in H. dmatch H. inversion H; subst; clear H.
+  apply log_ev_J. eapply upd_tot_J; [|eassumption]. eapply upd_sa_J0; eassumption.
+Qed.
 Lemma deposit_J s st a x s' : J s -> deposit s st a x = Some s' -> J s'.
 Proof.
-  intros Hj H. unfold deposit in H. dmatch H. inversion H; subst; clear H.
+  intros Hj H. apply deposit_shape in H. destruct H as [(_ & ->)|(_ & H)]; [exact Hj|]. eapply deposit_J_lst; eauto.
+Qed.
+Lemma withdraw_J_lst s st a x s' : J s -> withdraw_lst s st a x = Some s' -> J s'.
+Proof.
+  intros Hj H. unfold withdraw_lst in H. dmatch H. inversion H; subst; clear H.
   apply log_ev_J. eapply upd_tot_J; [|eassumption]. eapply upd_sa_J0; eassumption.
 Qed.
 Lemma withdraw_J s st a x s' : J s -> withdraw s st a x = Some s' -> J s'.
 Proof.
-  intros Hj H. unfold withdraw in H. dmatch H. inversion H; subst; clear H.
-  apply log_ev_J. eapply upd_tot_J; [|eassumption]. eapply upd_sa_J0; eassumption.
+  intros Hj H. apply withdraw_shape in H. destruct H as [(_ & ->)|(_ & H)]; [exact Hj|]. eapply withdraw_J_lst; eauto.
 Qed.
 Lemma delegate_J s st a op x s' : J s -> delegate s st a op x = Some s' -> J s'.
 Proof.
   intros Hj H. unfold delegate in H.
   destruct (x <=? 0); [discriminate|]. destruct (negb (mem op (operators s))); [discriminate|].
-  destruct (sget (sa s) (sa_key st a)) as [info|]; [|discriminate].
-  destruct (sa_wd info <? x); [discriminate|].
-  destruct (upd_sa s (sa_key st a) 0 (- x) 0) as [s1|] eqn:E1; [|discriminate].
+  destruct (take_from_staker s st a x) as [s1|] eqn:E1; [|discriminate].
   match type of H with match ?e with _ => _ end = _ => destruct e as [sh|]; [|discriminate] end.
   destruct (upd_oa s1 (oa_key op a) x 0 sh 0) as [s2|] eqn:E2; [|discriminate].
   destruct (upd_dg s2 (dg_key st a op) sh 0) as [[s3 z]|] eqn:E3; [|discriminate].
   inversion H; subst; clear H.
-  assert (J s3) as J3 by (eapply upd_dg_J0; [|eassumption]; eapply upd_oa_J0; [|eassumption]; eapply upd_sa_J0; eassumption).
+  assert (J s3) as J3 by (eapply upd_dg_J0; [|eassumption]; eapply upd_oa_J0; [|eassumption]; exact (take_J0 _ _ _ _ _ Hj E1)).
   unfold append_staker. destruct (mem st _); [assumption|]. eapply (J_ext s3); try reflexivity. assumption.
 Qed.
 
@@ -290,21 +340,21 @@ Proof.
   destruct (sget (dg s) (dg_key st a op)) as [d|]; [|discriminate].
   destruct (sget (oa s) (oa_key op a)) as [o|] eqn:Eo; [|discriminate].
   destruct (shares_from_tokens (oa_tsh o) x (oa_amt o)) as [sh0|]; [|discriminate].
-  destruct (sh0 >? dg_sh d); [discriminate|].
+  match type of H with (if ?c then _ else _) = _ => destruct c; [discriminate|] end.
   destruct (shares_from_tokens (oa_tsh o) 1 (oa_amt o)) as [tol|]; [|discriminate].
-  set (sh := if dg_sh d - sh0 <? tol then dg_sh d else sh0) in *.
+  set (sh := if sh0 >? dg_sh d then dg_sh d else if dg_sh d - sh0 <? tol then dg_sh d else sh0) in *.
   destruct (sh <=? 0); [discriminate|]. destruct (sh >? oa_tsh o); [discriminate|].
   match type of H with match ?e with _ => _ end = _ => destruct e as [tok|]; [|discriminate] end.
   destruct (upd_oa s (oa_key op a) (- tok) tok (- sh) 0) as [s1|] eqn:E1; [|discriminate].
-  destruct (upd_sa s1 (sa_key st a) 0 0 tok) as [s2|] eqn:E2; [|discriminate].
+  destruct (book_pending s1 st a tok) as [s2|] eqn:E2; [|discriminate].
   destruct (upd_dg s2 (dg_key st a op) (- sh) tok) as [[s3 z]|] eqn:E3; [|discriminate].
   match type of H with match ?e with _ => _ end = _ => destruct e as [s4|] eqn:E4; [|discriminate] end.
   match type of H with match set_record s4 ?rr with _ => _ end = _ => set (r0 := rr) in *;
     destruct (set_record s4 r0) as [s5|] eqn:E5; [|discriminate] end.
-  pose proof (upd_oa_srt _ _ _ _ _ _ _ S E1) as S1. pose proof (upd_sa_srt _ _ _ _ _ _ S1 E2) as S2.
+  pose proof (upd_oa_srt _ _ _ _ _ _ _ S E1) as S1.
+  destruct (book_reads _ _ _ _ _ S1 E2) as (S2 & R2 & a2 & b2 & c2 & _).
   pose proof (upd_dg_srt _ _ _ _ _ _ S2 E3) as S3.
   destruct (upd_oa_reads _ _ _ _ _ _ _ S E1) as (R1 & a1 & b1 & c1 & _).
-  destruct (upd_sa_reads _ _ _ _ _ _ S1 E2) as (R2 & a2 & b2 & c2 & _).
   destruct (upd_dg_reads _ _ _ _ _ _ S2 E3) as (R3 & a3 & b3 & c3 & _).
   assert (sa s4 = sa s3 /\ oa s4 = oa s3 /\ dg s4 = dg s3 /\ ur s4 = ur s3) as (a4 & b4 & c4 & d4).
   { destruct z; [|inversion E4; subst; auto]. unfold delete_staker in E4.
@@ -321,16 +371,16 @@ Proof.
       rewrite (RS_ext s5 s2 k) by congruence. rewrite (R2 k), (RS_ext s1 s k a1), A1.
       rewrite (RO_ext s5 s1 k) by congruence. rewrite (R1 k), A2.
       rewrite (RD_ext s5 s3 k) by congruence. rewrite (R3 k), (RD_ext s2 s1 k b2), (RD_ext s1 s k b1), A3.
-      unfold r0, ksa, koa, kdg. simpl. repeat split; lia. }
+      unfold r0, ksa, koa, kdg, amt_sa. simpl. repeat split; lia. }
   destruct (mem op (validators s)).
   - unfold hold_inc in H. destruct (hold_count s5 (rkey r0) =? max_u64); [discriminate|]. inversion H; subst.
     eapply (J_ext s5); try reflexivity. assumption.
   - inversion H; subst. assumption.
 Qed.
 
-Lemma genesis_load_J s r : idx_inv s -> J s -> negb (has_key (ur s) (rkey r)) = true -> J (fst (genesis_load s r)).
+Lemma genesis_load_J s r : idx_inv s -> J s -> is_native (ur_asset r) = false -> negb (has_key (ur s) (rkey r)) = true -> J (fst (genesis_load s r)).
 Proof.
-  intros I Hj Fr. apply has_key_false in Fr. unfold genesis_load.
+  intros I Hj Nat Fr. apply has_key_false in Fr. unfold genesis_load.
   destruct ((ur_amt r <=? 0) || negb (ur_act r =? ur_amt r)); [exact Hj|].
   destruct (deposit s (ur_staker r) (ur_asset r) (ur_amt r)) as [s0|] eqn:E0; [|exact Hj].
   destruct (upd_sa s0 _ 0 (- ur_amt r) (ur_amt r)) as [s1|] eqn:E1; [|exact Hj].
@@ -355,16 +405,17 @@ Proof.
     rewrite (RS_ext s5 s1 k) by congruence. rewrite (R1 k), A1.
     rewrite (RO_ext s5 s2 k) by congruence. rewrite (R2 k), (RO_ext s1 s0 k a1), A2.
     rewrite (RD_ext s5 s3 k) by congruence. rewrite (R3 k), (RD_ext s2 s1 k b2), (RD_ext s1 s0 k b1), A3.
-    unfold ksa, koa, kdg. repeat split; lia.
+    unfold ksa, koa, kdg, amt_sa. rewrite Nat. repeat split; lia.
 Qed.
 
 Lemma slash_rec_fun_agg op eh prop k r :
   ksa (slash_rec_fun op eh prop k r) = ksa r /\ koa (slash_rec_fun op eh prop k r) = koa r /\
-  kdg (slash_rec_fun op eh prop k r) = kdg r /\ ur_amt (slash_rec_fun op eh prop k r) = ur_amt r.
+  kdg (slash_rec_fun op eh prop k r) = kdg r /\ ur_amt (slash_rec_fun op eh prop k r) = ur_amt r /\
+  amt_sa (slash_rec_fun op eh prop k r) = amt_sa r.
 Proof.
-  unfold slash_rec_fun. destruct (_ && _); [|auto].
+  unfold slash_rec_fun. destruct (_ && _); [|auto 10].
   pose proof (slash_record_keys prop r) as (_ & _ & _ & _ & _ & A & B & C & D).
-  unfold ksa, koa, kdg. rewrite A, B, C, D. auto.
+  unfold ksa, koa, kdg, amt_sa. rewrite A, B, C, D. auto 10.
 Qed.
 
 Lemma slash_J s op eh prop s' : J s -> slash s op eh prop = Some s' -> J s'.
@@ -378,9 +429,9 @@ Proof.
                     pend_dg k (fst (if eh <=? height s then slash_records op eh prop (ur s) else (ur s, []))) = pend_dg k (ur s)) as PU.
   { intro k. destruct (eh <=? height s); [|simpl; auto]. rewrite slash_records_map.
     unfold pend_sa, pend_oa, pend_dg.
-    repeat split; apply ssumk_map_vals; intros k0 v; destruct (slash_rec_fun_agg op eh prop k0 v) as (a & b & c & d);
+    repeat split; apply ssumk_map_vals; intros k0 v; destruct (slash_rec_fun_agg op eh prop k0 v) as (a & b & c & d & e);
       fold (ksa (slash_rec_fun op eh prop k0 v)) (koa (slash_rec_fun op eh prop k0 v)) (kdg (slash_rec_fun op eh prop k0 v));
-      fold (ksa v) (koa v) (kdg v); rewrite ?a, ?b, ?c, ?d; reflexivity. }
+      fold (ksa v) (koa v) (kdg v); rewrite ?a, ?b, ?c, ?d, ?e; reflexivity. }
   destruct (if eh <=? height s then slash_records op eh prop (ur s) else (ur s, [])) as [u' ev1].
   inversion H; subst; clear H. split.
   - unfold srt. simpl. repeat split; [assumption | unfold sorted; rewrite Ko; exact So | assumption].
@@ -396,7 +447,7 @@ Proof.
   - destruct (delegate s staker asset operator x) as [s'|] eqn:E; simpl; [|exact Hj]. eapply delegate_J; eauto.
   - destruct (undelegate s staker asset operator x nonce tx) as [[s' r]|] eqn:E; simpl; [|exact Hj].
     eapply undelegate_J; eauto.
-  - apply genesis_load_J; assumption.
+  - simpl in Wf. apply andb_prop in Wf. destruct Wf as [_ Nn]. apply negb_true_iff in Nn. apply genesis_load_J; assumption.
   - destruct prop as [p|]; simpl; [|exact Hj].
     destruct (slash s operator eh p) as [s'|] eqn:E; simpl; [|exact Hj]. eapply slash_J; eauto.
   - unfold hold_inc. destruct (_ =? _); simpl; [exact Hj|]. eapply (J_ext s); try reflexivity. exact Hj.
